@@ -22,6 +22,22 @@ mod verif_c05_twins {
     use super::*;
     use crate::structures::paging::{Page, PageSize, Size1GiB, Size2MiB, Size4KiB};
 
+    /// Checks every listed clause on its own path: Kani's `assert!` also ASSUMES its condition afterwards, so in a
+    /// plain sequence a failing earlier clause would hide a failing later one (and with it the later obligation).
+    macro_rules! check_each {
+        ($( $c:expr => $m:literal ),+ $(,)?) => {{
+            let pick: u8 = kani::any();
+            let mut k: u8 = 0;
+            $(
+                if pick == k {
+                    assert!($c, $m);
+                }
+                k += 1;
+            )+
+            let _ = k;
+        }};
+    }
+
     const LOW48: u64 = 0x0000_ffff_ffff_ffff;
     const TWO48: u128 = 1 << 48;
 
@@ -69,21 +85,19 @@ mod verif_c05_twins {
         kani::cover!(true, "c05_twin_virtaddr_forward_checked_u64: reachable");
         let want = pos(a) as u128 + count as u128;
         let r = VirtAddr::forward_checked_u64(v, count);
-        assert!(
-            r.is_some() == (want < TWO48),
-            "C05.VirtAddr_forward_checked_u64.lands_n_later_or_none: Some exactly when position pos(start) + count exists"
-        );
+        check_each! {
+            r.is_some() == (want < TWO48)
+                => "C05.VirtAddr_forward_checked_u64.lands_n_later_or_none: Some exactly when position pos(start) + count exists",
+        }
         if let Some(x) = r {
             let x = x.as_u64();
             kani::cover!(a < 0x8000_0000_0000 && x >= 0xffff_8000_0000_0000, "c05_twin_virtaddr_forward_checked_u64: jumps the gap");
-            assert!(
-                canonical(x),
-                "C03.VirtAddr_forward_checked_u64.valid: the result is canonical"
-            );
-            assert!(
-                canonical(x) && pos(x) as u128 == want,
-                "C05.VirtAddr_forward_checked_u64.lands_n_later_or_none: a canonical address exactly count positions later"
-            );
+            check_each! {
+                canonical(x)
+                    => "C03.VirtAddr_forward_checked_u64.valid: the result is canonical",
+                canonical(x) && pos(x) as u128 == want
+                    => "C05.VirtAddr_forward_checked_u64.lands_n_later_or_none: a canonical address exactly count positions later",
+            }
         }
     }
 
@@ -95,16 +109,16 @@ mod verif_c05_twins {
         kani::cover!(true, "c05_twin_virtaddr_forward_checked_impl: reachable");
         let want = pos(a) as u128 + count as u128;
         let r = VirtAddr::forward_checked_impl(v, count);
-        assert!(
-            r.is_some() == (want < TWO48),
-            "C05.VirtAddr_forward_checked_impl.lands_n_later_or_none: Some exactly when position pos(start) + count exists"
-        );
+        check_each! {
+            r.is_some() == (want < TWO48)
+                => "C05.VirtAddr_forward_checked_impl.lands_n_later_or_none: Some exactly when position pos(start) + count exists",
+        }
         if let Some(x) = r {
             let x = x.as_u64();
-            assert!(
-                canonical(x) && pos(x) as u128 == want,
-                "C05.VirtAddr_forward_checked_impl.lands_n_later_or_none: a canonical address exactly count positions later"
-            );
+            check_each! {
+                canonical(x) && pos(x) as u128 == want
+                    => "C05.VirtAddr_forward_checked_impl.lands_n_later_or_none: a canonical address exactly count positions later",
+            }
         }
     }
 
@@ -117,15 +131,15 @@ mod verif_c05_twins {
         kani::cover!(true, "c05_twin_virtaddr_steps_between_u64: reachable");
         kani::cover!(s < 0x8000_0000_0000 && e >= 0xffff_8000_0000_0000, "c05_twin_virtaddr_steps_between_u64: across the gap");
         let r = VirtAddr::steps_between_u64(&vs, &ve);
-        assert!(
-            r.is_some() == (pos(s) <= pos(e)),
-            "C05.VirtAddr_steps_between_u64.exact_distance_or_none: Some exactly when the end is not before the start"
-        );
+        check_each! {
+            r.is_some() == (pos(s) <= pos(e))
+                => "C05.VirtAddr_steps_between_u64.exact_distance_or_none: Some exactly when the end is not before the start",
+        }
         if let Some(n) = r {
-            assert!(
-                n as u128 + pos(s) as u128 == pos(e) as u128,
-                "C05.VirtAddr_steps_between_u64.exact_distance_or_none: the distance in positions, exactly"
-            );
+            check_each! {
+                n as u128 + pos(s) as u128 == pos(e) as u128
+                    => "C05.VirtAddr_steps_between_u64.exact_distance_or_none: the distance in positions, exactly",
+            }
         }
     }
 
@@ -156,19 +170,17 @@ mod verif_c05_twins {
         if pos(a) <= pos(b) {
             let d = pos(b) - pos(a);
             let q = d / size;
-            assert!(
-                r.0 as u64 == q && r.1 == Some(q as usize),
-                "C05.Page_steps_between_impl.exact_pages_or_none: (q, Some(q)), q = distance in whole pages"
-            );
-            assert!(
-                q as u128 * size as u128 == d as u128,
-                "C05.Page_steps_between_impl.exact_pages_or_none: q * SIZE is exactly the distance in positions"
-            );
+            check_each! {
+                r.0 as u64 == q && r.1 == Some(q as usize)
+                    => "C05.Page_steps_between_impl.exact_pages_or_none: (q, Some(q)), q = distance in whole pages",
+                q as u128 * size as u128 == d as u128
+                    => "C05.Page_steps_between_impl.exact_pages_or_none: q * SIZE is exactly the distance in positions",
+            }
         } else {
-            assert!(
-                r.0 == 0 && r.1.is_none(),
-                "C05.Page_steps_between_impl.exact_pages_or_none: (0, None) when the end is before the start"
-            );
+            check_each! {
+                r.0 == 0 && r.1.is_none()
+                    => "C05.Page_steps_between_impl.exact_pages_or_none: (0, None) when the end is before the start",
+            }
         }
     }
 
@@ -196,19 +208,17 @@ mod verif_c05_twins {
         kani::cover!(sel == 2 && r.is_some() && count > 0, "c05_twin_page_forward_checked_impl: 1 GiB step taken");
         // count * SIZE < 2^64 * 2^30: exact in u128
         let want = pos(a) as u128 + count as u128 * size as u128;
-        assert!(
-            r.is_some() == (want < TWO48),
-            "C05.Page_forward_checked_impl.whole_pages_or_none: Some exactly when position pos(start) + count * SIZE exists"
-        );
+        check_each! {
+            r.is_some() == (want < TWO48)
+                => "C05.Page_forward_checked_impl.whole_pages_or_none: Some exactly when position pos(start) + count * SIZE exists",
+        }
         if let Some(x) = r {
-            assert!(
-                canonical(x) && x % size == 0,
-                "C03.Page_forward_checked_impl.valid: the result is a canonical, size-aligned start address"
-            );
-            assert!(
-                canonical(x) && x % size == 0 && pos(x) as u128 == want,
-                "C05.Page_forward_checked_impl.whole_pages_or_none: a well-formed page exactly count whole pages later"
-            );
+            check_each! {
+                canonical(x) && x % size == 0
+                    => "C03.Page_forward_checked_impl.valid: the result is a canonical, size-aligned start address",
+                canonical(x) && x % size == 0 && pos(x) as u128 == want
+                    => "C05.Page_forward_checked_impl.whole_pages_or_none: a well-formed page exactly count whole pages later",
+            }
         }
     }
 }
